@@ -48,6 +48,15 @@ type Body struct {
 	Pipe   bool
 	Open   bool
 	Wanted bool
+	// Hist is a rolling hash of every Read result (state keys of the scheduler search).
+	Hist uint64
+}
+
+func mix(h uint64, vals ...int) uint64 {
+	for _, v := range vals {
+		h = (h ^ uint64(v+1)) * 1099511628211
+	}
+	return h
 }
 
 func NewBody(data []byte) *Body { return &Body{Data: data, FailAt: -1} }
@@ -84,6 +93,7 @@ func (b *Body) Read(p []byte) (int, error) {
 		limit = b.FailAt
 	}
 	if b.off >= limit {
+		b.Hist = mix(b.Hist, 2, len(p))
 		if b.FailAt >= 0 && b.off >= b.FailAt {
 			return 0, b.FailErr
 		}
@@ -98,6 +108,7 @@ func (b *Body) Read(p []byte) (int, error) {
 	}
 	n := copy(p, b.Data[b.off:end])
 	b.off += n
+	b.Hist = mix(b.Hist, 1, n, len(p))
 	if b.off >= limit && !b.Pipe {
 		if b.FailAt >= 0 && limit == b.FailAt {
 			if b.EOFWithData {
@@ -154,6 +165,7 @@ type Recorder struct {
 	NoFlusher     bool
 	visible       int
 	VisibleHead   bool
+	Hist          uint64 // rolling hash of every call (state keys of the scheduler search)
 }
 
 func NewRecorder() *Recorder { return &Recorder{hdr: http.Header{}, DeclaredCL: -1} }
@@ -178,6 +190,7 @@ func (r *Recorder) WriteHeader(code int) {
 	if r.H != nil {
 		r.H.Point("rw.writeheader", r)
 	}
+	r.Hist = mix(r.Hist, 3, code)
 	if r.WroteHeader {
 		r.Superfluous++
 		return
@@ -218,6 +231,10 @@ func (r *Recorder) Write(p []byte) (int, error) {
 		r.WriteHeader(http.StatusOK)
 	}
 	r.Writes++
+	r.Hist = mix(r.Hist, 4, len(p))
+	for _, c := range p {
+		r.Hist = mix(r.Hist, int(c))
+	}
 	if len(p) == 0 {
 		return 0, nil
 	}
@@ -243,6 +260,7 @@ func (r *Recorder) Flush() {
 	if !r.WroteHeader {
 		r.WriteHeader(http.StatusOK)
 	}
+	r.Hist = mix(r.Hist, 5)
 	r.Flushes = append(r.Flushes, r.BodyBytes.Len())
 	r.visible = r.BodyBytes.Len()
 	r.VisibleHead = true
